@@ -64,10 +64,35 @@ def rule_keys(model: Model):
                       f"'cores' must hold {param}.cores exactly (found {norm(cv) if cv is not None else None}): a transformed or partial "
                       "core list does not round-trip bit-identically"))
         # the dict is what torch.save receives
-    saved = [c for c in ast.walk(f.node) if isinstance(c, ast.Call) and model.resolve(f.module, c.func) == "torch.save"]
-    ok = len(saved) >= len(dicts) and all(isinstance(c.args[0], ast.Name) for c in saved if c.args)
-    obs.append(Ob("KEYS", "_extras.save:KEYS:torch.save", OK if ok else VIOLATED, model.where(f), "tn.save(dct, path)",
-                  "each branch hands its dictionary to torch.save" if ok else "a branch of save does not write its dictionary"))
+    # must-pass-through: on every path of save that does not raise, the dictionary built on that path is what torch.save receives
+    from ..flow import simple_paths
+    try:
+        paths = simple_paths(f.node.body)
+    except ValueError:
+        paths = None
+    if paths is None:
+        obs.append(Ob("KEYS", "_extras.save:KEYS:torch.save", ERROR, model.where(f), "tn.save(dct, path)", "save has too many paths to enumerate"))
+    else:
+        dict_nodes = {id(n.value) for n, _ in dicts}
+        bad = None
+        for stmts, ex in paths:
+            if ex == "raise":
+                continue
+            built = None
+            written = False
+            for st in stmts:
+                if isinstance(st, ast.Assign) and id(st.value) in dict_nodes and isinstance(st.targets[0], ast.Name):
+                    built, written = st.targets[0].id, False
+                for c in ast.walk(st):
+                    if isinstance(c, ast.Call) and model.resolve(f.module, c.func) == "torch.save" and c.args:
+                        if (isinstance(c.args[0], ast.Name) and c.args[0].id == built) or id(c.args[0]) in dict_nodes:
+                            written = True
+            if not written:
+                bad = stmts[-1] if stmts else f.node
+        ok = bad is None
+        obs.append(Ob("KEYS", "_extras.save:KEYS:torch.save", OK if ok else VIOLATED, model.where(f, bad) if bad is not None and hasattr(bad, "lineno") else model.where(f),
+                      "tn.save(dct, path)", "on every path the dictionary built there is handed to torch.save" if ok else
+                      "a path through save ends without handing the dictionary it built to torch.save: nothing (or a stale dictionary) is written"))
     # load rebuilds through TT(list of cores)
     rets = [n for n in ast.walk(lf.node) if isinstance(n, ast.Return)]
     ok = len(rets) == 1 and isinstance(rets[0].value, ast.Call) and model.resolve(lf.module, rets[0].value.func) == "torchtt._tt_base.TT" \
